@@ -11,6 +11,9 @@ CLAIMED = {
  "C04": ("call-graph who-may-write + SSA dominance + reaching-condition truth tables + def-use flow (go/ssa)",
          "Decides for every history and interleaving the structural facts that make the guarantee true: the published version has a single writer (monitor goroutine) apart from the initial store; the store is reached exactly when compose succeeded and the verification decision (isVerified && !skipVerify => Verify()==nil) passed, on the same compose result; reject branches store nothing, submit (err, View(), rejected) and answer the blocking reporter with that error; BlockingReportNewValue returns what the monitor answered; handlers only receive event fields.",
          "Not decided: behaviour of user Verify methods, queue-overflow timing. Trusted: go/ssa lowering, sync/atomic semantics."),
+ "C05": ("call-graph + def-use flow + dominance over go/ssa; both Dials struct build variants",
+         "Decides that incremental re-stacking and a fresh Config are the same computation over the same inputs (same compose, same pristine defaults copy, same slot slice; slot replaced by source identity with exactly the reported value and written nowhere else), that each stored serial is (serial loaded in the same function with no store between) + 1 with the event carrying the same arithmetic and the predecessor config, and that View/ViewVersion read config and serial through exactly one atomic load of one freshly allocated pair.",
+         "Not decided: value-level equality of the stacked results (reflection at run time). Trusted: go/ssa lowering, sync/atomic."),
 }
 
 NOT_YET = {}
